@@ -168,14 +168,20 @@ class State:
     # ---- frames ----------------------------------------------------------------------------------
     def protect(self, t: torch.Tensor, what: str):
         self.protected.setdefault(t.untyped_storage()._cdata, what)
-        # keep the storage alive so that its address is not reused
-        self.shadow(t)
+        self.protected_objs = getattr(self, "protected_objs", {})
+        self.protected_objs[id(t)] = t  # (keeps the object alive: ids are not reused while protected)
+        # (the reference above keeps the storage alive so that its address is not reused; a concrete tensor stays
+        # concrete - giving it a shadow would turn every later operation on it into symbolic evaluation of constants)
 
     def unprotect_all(self):
         self.protected.clear()
+        self.protected_objs = {}
 
 
 STATE: Optional[State] = None
+
+# in-place operations that change the size/stride/flags of the tensor *object* only and never write an element
+METADATA_ONLY = {"squeeze", "unsqueeze", "transpose", "t", "as_strided", "detach", "swapaxes", "swapdims"}  # base names of the in-place variants
 
 
 def _tobool_arr(r: np.ndarray) -> np.ndarray:
@@ -1474,12 +1480,14 @@ class SymMode(TorchDispatchMode):
                     written.append(v)
         for w in written:
             k = w.untyped_storage()._cdata
+            if name in METADATA_ONLY and id(w) not in getattr(st, "protected_objs", {}):
+                continue  # reshapes a (fresh) view object in place; no element of the storage is written
             if k in st.protected:
                 st.frame_violations.append(FrameViolation(str(func), explore._site(), st.protected[k]))
 
         symbolic_in = any(not st.is_concrete(t) for t in in_tensors)
         # make sure shadows of inputs exist BEFORE the real op mutates anything in place
-        if symbolic_in or written:
+        if symbolic_in:  # (an in-place operation among concrete tensors stays concrete)
             for t in in_tensors:
                 st._flat(t)
 
